@@ -170,6 +170,7 @@ pub fn lanes_for(prop: &str, tier: &str, seed: u64) -> Vec<Scenario> {
             v.extend(gen_cli::lane_cli_bytes(seed, if thorough { 400 } else { 40 }));
             v.extend(gen_cli::lane_cli_report_bytes(seed));
             v.extend(gen_cli::lane_pairing(seed));
+            v.extend(gen_cli::lane_script_partial(seed));
             v.extend(gen_cli::lane_cli_fates(seed, if thorough { 1 } else { 6 }));
             v.extend(gen_cli::lane_cram_sizes(seed));
             v.extend(gen_cli::lane_random(Tier::Cli, seed, n_rand_cli, "C13"));
